@@ -2135,6 +2135,12 @@ def symbol_counter_obligations(rep, tier, unit='bounded:SymbolCounter'):
     import itertools
     from types import SimpleNamespace as NS
     from sourcer.expressions import base as B
+    # the contracts of the three methods, discharged for all nodes / parameter lists / earlier states (contracts/repo_scope.py); the enumeration
+    # below is then the CPython cross-check of that proof - and the bounded stand-in when the class leaves the verifier's subset
+    from contracts import repo_scope
+    n_err0 = len(rep.errors)
+    repo_scope.obligations(rep, tier)
+    out_of_reach = [e[0] for e in rep.errors[n_err0:] if e[1] in ('out-of-subset', 'role')]
     kinds = [('let', 'a'), ('let', 'b'), ('par', ('a',)), ('par', ('a', 'b')), ('par', ()), ('par', None), ('ref', 'a'), ('ref', 'b')]
 
     def node(kind):
@@ -2197,6 +2203,8 @@ def symbol_counter_obligations(rep, tier, unit='bounded:SymbolCounter'):
     rep.add(unit, f'is_bound(x) iff x is on the stack of open binders, after every event; freevars = references met outside every binder of their name '
                   f'[all well-nested forests of <= {nmax} nodes over {len(kinds)} node kinds: {tried} traces]', 'bounded', not bad,
             detail={'violations': bad[:3]}, replay={'reproduced': True, 'violated': bad[:3]} if bad else None)
+    for u in out_of_reach:
+        rep.unit_bounded[u] = {'tried': tried, 'bound': f'all well-nested forests of <= {nmax} nodes over {len(kinds)} node kinds, every prefix of the trace', 'violations': len(bad)}
     # a fresh tracker starts empty (no state shared between trackers - each call of freevars() / each rule gets its own)
     s1 = B.SymbolCounter()
     s1.previsit(node(('ref', 'a')))
